@@ -189,3 +189,65 @@ def qr_backward_check(out, A64, Q0_64, u, C=64.0):
     first.sort()
     ok = all(f >= i for i, f in enumerate(first))
     return ok, first
+
+
+def stop_rule_check(out, A64, Q0_64, max_iter, tol, u, gen, C=256.0, n_probes=3):
+    """QRConfig documents `tolerance` as a bound on the RELATIVE change ||Q_new - Q_old|| / ||Q_old|| of the estimate.
+    J = iterations j at which the documented loop may stop: evaluated on the float64 reference AND on `n_probes` runs with
+    emulated working-precision noise (inside near-degenerate clusters the iterates keep rotating under rounding noise, so the
+    relative change is not reproducible across precisions), each with raw and with sign-aligned columns (Householder sign
+    conventions), with a factor-1.5 band around the tolerance.
+    M = iterations j whose (probe-stable, non-vacuous) reference iterate matches `out`.
+    Returns (verdict, J, M) with verdict in {"ok", "vacuous", "violated"}."""
+    n = A64.shape[0]
+    normA = float(torch.linalg.matrix_norm(A64, 2))
+    out = out.to(D)
+    seqs = [Q0_64] + [torch.linalg.qr(Q0_64 + 8 * u * torch.randn(n, n, generator=gen, dtype=D)).Q for _ in range(n_probes)]
+    rels = [([], []) for _ in seqs]
+    M, unknown = [], set()
+    for j in range(1, max_iter + 1):
+        new = []
+        for idx, Q in enumerate(seqs):
+            Mx = A64 @ Q
+            if idx > 0:
+                Mx = Mx + 8 * u * (A64.abs() @ Q.abs()) * torch.randn(n, n, generator=gen, dtype=D)
+            Qn = torch.linalg.qr(Mx).Q
+            sgn = torch.sign((Qn * Q).sum(0))
+            sgn[sgn == 0] = 1
+            rels[idx][0].append(float((Q - Qn).norm() / Q.norm()))
+            rels[idx][1].append(float((Q - Qn * sgn).norm() / Q.norm()))
+            new.append(Qn)
+        seqs = new
+        Q = seqs[0]
+        ev = torch.einsum("ij,ik,kj->j", Q, A64, Q)
+        o = ev.argsort()
+        stable = True
+        for Qp in seqs[1:]:
+            evp = torch.einsum("ij,ik,kj->j", Qp, A64, Qp)
+            _, nvp, _ = cluster_cmp(Qp[:, evp.argsort()], Q[:, o], ev[o], u, n, normA, C, probe=Qp[:, evp.argsort()])
+            stable = stable and nvp > 0
+        if not stable:
+            unknown.add(j)  # the reference itself is not reproducible at this iteration: nothing can be refuted about it
+            continue
+        ok, nv, _ = cluster_cmp(out, Q[:, o], ev[o], u, n, normA, C, None)
+        if nv == 0:
+            unknown.add(j)
+        elif ok:
+            M.append(j)
+
+    def stops(rel):
+        J = set()
+        for j in range(1, max_iter + 1):
+            if all(rel[i - 1] > tol / 1.5 for i in range(1, j)) and (rel[j - 1] <= tol * 1.5 or j == max_iter):
+                J.add(j)
+        return J
+
+    J = set()
+    for raw, al in rels:
+        J |= stops(raw) | stops(al)
+        J |= set(range(min(stops(al)), max(stops(raw)) + 1)) if stops(al) and stops(raw) else set()  # any mixture of flipped / unflipped columns
+    if not M or (J & unknown):
+        return "vacuous", sorted(J), M
+    if J & set(M):
+        return "ok", sorted(J), M
+    return "violated", sorted(J), M
